@@ -242,7 +242,7 @@ def _bind(helper, call, is_method):
 _counter = [0]
 
 
-def expand_call(helper, call, caller_locals, is_method=False, receiver=None):
+def expand_call(helper, call, caller_locals, is_method=False, receiver=None, result_name=None):
     """(prelude statements, body statements with `return e` rewritten through
     `make_result`, result-expression-or-None).  The caller decides what to do
     with the result."""
@@ -270,6 +270,19 @@ def expand_call(helper, call, caller_locals, is_method=False, receiver=None):
     subst = {}
     prelude = []
     mapping = {l: l + tag for l in locs if l not in hparams}
+    if result_name is not None:
+        # `T = h(..)` where h returns its local R: build the result under the name T directly
+        # (no alias `T = R__iN` is left behind), when that cannot capture anything
+        rets = [n.value for n in ast.walk(helper) if isinstance(n, ast.Return) and n.value is not None]
+        rnames = {r.id for r in rets if isinstance(r, ast.Name)}
+        arg_names = set()
+        for a in list(call.args) + [k.value for k in call.keywords]:
+            arg_names |= _loaded_names(a)
+        if len(rnames) == 1:
+            R = next(iter(rnames))
+            if R in locs and R not in hparams and result_name not in free and result_name not in arg_names \
+                    and (result_name not in locs or result_name == R) and result_name not in hparams:
+                mapping[R] = result_name
     if is_method:
         selfname = helper.args.args[0].arg
         if selfname in rebound or not isinstance(receiver, ast.Name):
@@ -374,7 +387,8 @@ class Inliner:
             t = self._target(call)
             if t is not None:
                 helper, is_method, recv = t
-                prelude, body, tag = expand_call(helper, call, caller_locals, is_method, recv)
+                rn = s.targets[0].id if kind == 'assign' and isinstance(s.targets[0], ast.Name) else None
+                prelude, body, tag = expand_call(helper, call, caller_locals, is_method, recv, result_name=rn)
                 if kind == 'expr':
                     body = _rewrite_returns(body, lambda e: [] if e is None or isinstance(e, (ast.Constant, ast.Name)) else [ast.copy_location(ast.Expr(value=e), s)])
                 elif kind == 'assign':
